@@ -14,6 +14,29 @@ def gen_script(rng, maxlen=30, maxdepth=4, fns="fgh", loops=True, reads=True, au
 
     budget = [maxlen]
 
+    def sstep(last=False):
+        if not last and rng.random() < 0.15:
+            out.append(["sraise", nv()])
+            return False
+        out.append(["slast" if last else "sval", nv()])
+        return True
+
+    def sbody():
+        if not sstep():
+            return "raise"
+        for _ in range(rng.randint(0, 2)):
+            out.append(["iter", nv()])
+            if not sstep():
+                return "raise"
+            for _j in range(rng.randint(0, 2)):
+                out.append(["iter", nv()])
+                if not sstep():
+                    return "raise"
+            out.append(["stop", 0])
+        out.append(["stop", 0])
+        sstep(last=True)
+        return "end"
+
     def ops(depth, bound, inloop):
         """emit ops for one activation (or one loop iteration when inloop); returns how it ended:
         'ret' | 'raise' | 'end' (function) or 'next' | 'brk' | 'cont' (iteration)."""
@@ -32,8 +55,15 @@ def gen_script(rng, maxlen=30, maxdepth=4, fns="fgh", loops=True, reads=True, au
             elif r < 0.50 and reads:
                 v = rng.choice(sorted(bound))
                 out.append([f"read_{v}", 0])
+            elif r < 0.50 + p_call and depth < maxdepth and "s" in fns and rng.random() < 0.3:
+                # the straight-line function s: values and exceptions come from its callee stepval()
+                catch = rng.random() < 0.4
+                out.append([("catch_" if catch else "call_") + "s", nv()])
+                ended = sbody()
+                if ended == "raise" and not catch:
+                    return "raise"
             elif r < 0.50 + p_call and depth < maxdepth:
-                fn = rng.choice(fns)
+                fn = rng.choice([x for x in fns if x != "s"])
                 catch = rng.random() < 0.3
                 out.append([("catch_" if catch else "call_") + fn, nv()])
                 ended = ops(depth + 1, {"p"}, False)
